@@ -487,8 +487,12 @@ func c11Flow(c *Ctx) {
 		for it := 0; it < c.N(4, 30); it++ {
 			mode := r.PickS("segtimeline_1", "segtimelinenr_1")
 			ttl := r.Pick(60, 30, 600)
-			extra := r.PickS("", "", "periods_60/", "tsbd_30/", "periods_120/tsbd_10/", "ato_1.5/chunkdur_0.25/", "periods_60/ato_1/", "periods_120/ato_0.5/", "periods_60/ato_1.5/chunkdur_0.5/")
+			extra := r.PickS("", "", "periods_60/", "tsbd_30/", "periods_120/tsbd_10/", "ato_1.5/chunkdur_0.25/", "periods_60/ato_1/", "periods_120/ato_0.5/", "periods_60/ato_1.5/chunkdur_0.5/",
+				"tsbd_25/start_1700000000/", "tsbd_7/start_61/", "tsbd_25/")
 			base := int64(1790000000000) + int64(r.Intn(100000))
+			if strings.Contains(extra, "start_61/") && r.Intn(2) == 0 {
+				base = 61000 + int64(r.Intn(200000)) // close to the start of the stream
+			}
 			t1 := base
 			if strings.Contains(extra, "periods_") && r.Intn(2) == 0 {
 				// right after a period boundary: the newest Period is listed before its first segment is announced
